@@ -7,7 +7,7 @@ CONSTANTS
   MaxCmds = 6
   MaxFaults = 1
   MaxNs = 2
-  MaxPerPool = 4
+  MaxPerPool = 7
   FOps = {"get", "begin", "setac", "exec", "commit", "rollback", "ping"}
 VIEW View
 INVARIANTS TypeOK C19_NoLeak C19_NoDangling C19_NothingHeldOutsideTx C19_NoOpenTxInPool C19_EndClean C23_PinnedRole ModeSeparation
